@@ -210,3 +210,44 @@ def crashmodel(args):
         fh.write("\n")
     print(f"[crashmodel] {compared} crash points compared against real process death, {mism} mismatches")
     return 0 if not mism else 2
+
+
+REFACTOR_CHECKS = {"C13": ["C13", "C17"], "C15": ["C15"], "C16": ["C16"], "C17": ["C17", "C15", "C16", "C18"], "C18": ["C18"]}
+
+
+def specificity(args):
+    """Every behaviour-preserving refactor under /verif/refactors must leave
+    the checks quiet (exit 0) - the false-alarm corpus."""
+    dirs = sorted(glob.glob(os.path.join(VERIF, "refactors", "*", "patch.diff")))
+    alarms, rows = [], []
+    for patch in dirs:
+        rid = os.path.basename(os.path.dirname(patch))
+        if args.replay and args.replay not in rid:
+            continue
+        try:
+            d = _scratch_repo(patch)
+        except RuntimeError as e:
+            print(f"[specificity] {rid}: {e}")
+            alarms.append(rid)
+            continue
+        try:
+            for chk in REFACTOR_CHECKS.get(rid[:3], [rid[:3]]):
+                env = dict(os.environ)
+                env["VERIF_REPO"] = d
+                env["VERIF_REPO_SRC"] = os.path.join(d, "src")
+                t0 = time.time()
+                p = subprocess.run([CHECK, chk, "--tier", "quick", "--no-evidence", "--no-shrink"], env=env,
+                                   capture_output=True, text=True, timeout=3600, check=False)
+                ok = p.returncode == 0
+                rows.append((rid, chk, ok, round(time.time() - t0, 1)))
+                print(f"[specificity] {rid} vs {chk}: {'quiet' if ok else 'ALARM rc=%d' % p.returncode} ({time.time() - t0:.1f}s)", flush=True)
+                if not ok:
+                    alarms.append(f"{rid}/{chk}")
+        finally:
+            shutil.rmtree(d, ignore_errors=True)
+    out = os.path.join(VERIF, "evidence", "selftest-specificity.json")
+    with open(out, "w") as fh:
+        json.dump({"rows": [dict(zip(("refactor", "check", "quiet", "seconds"), r)) for r in rows], "alarms": alarms}, fh, indent=1)
+        fh.write("\n")
+    print(f"[specificity] {len(rows) - len(alarms)} of {len(rows)} quiet; alarms: {alarms}")
+    return 0 if not alarms else 2
